@@ -332,7 +332,7 @@ func execXMLW(c core.Case) []core.Rec {
 			res["ok"] = true
 		}
 		recs = append(recs, core.Rec{"chk": "edit", "schema": f.Name, "impl": "rmap", "src": src, "ordered": false, "srcordered": true,
-			"pre": pre, "op": core.Rec{"k": "upsert", "at": at, "s": sub}, "res": res, "post": tkind.Project(f, troot), "step": step, "text": briefs(text),
+			"pre": pre, "op": core.Rec{"k": "upsert", "at": at, "s": sub, "dup": false}, "res": res, "post": tkind.Project(f, troot), "step": step, "text": briefs(text),
 			"sig": core.Rec{"impl": storeName, "src": src, "k": "upsert", "at": ak}})
 	}
 	if docText != "" && !enumids && ak != "list" {
